@@ -30,6 +30,7 @@ RULE = (
     "along the context chain); limits swept over {0, 1, U-1, U, U+1, 2U} and {1, S-1, S, S+1, 2S}, strict / lax. Judged: completed => "
     "len(utf8(out)) <= L; strict and U > L => OutputStreamLimitError; every assign that returns normally leaves chain size <= M. "
     "Non-trivial = U > 0 with at least one multi-byte character or a capture/partial, distinct by (templates, data)."
+    " Rounds 5-6 added enumerated families: every nesting (depth 1-3) of the buffering tags under every limit value; refused assignments in tolerant modes (the namespace of a render that goes on is measured after the refusal)."
 )
 REQUIRED = [
     ("liquid/output.py", "LimitedStringIO.write"),
